@@ -19,6 +19,8 @@ conf = {}
 if suite:
     env = dict(os.environ, CARGO_TARGET_DIR=os.path.join(wt, "target"), CARGO_NET_OFFLINE="true")
     def run(c):
+        if c and c[0] == "cargo":
+            c = ["unshare", "-n", "sh", "-c", "ip link set lo up; exec \"$@\"", "sh"] + list(c)
         r = subprocess.run(c, cwd=wt, env=env, stdout=subprocess.PIPE, stderr=subprocess.STDOUT, text=True)
         return r.returncode, r.stdout
     run(["git", "checkout", "--", "."])
